@@ -1,0 +1,67 @@
+//go:build verif
+
+package dss
+
+import (
+	"encoding/json"
+	"fmt"
+	"os"
+	"sync"
+)
+
+// With the verif tag and VERIF_TRACE_OUT set, the package's own tests write
+// one ndjson event per DSS call; /verif validates the file against
+// spec/DSSTrace.tla.
+func init() {
+	path := os.Getenv("VERIF_TRACE_OUT")
+	if path == "" {
+		return
+	}
+	f, err := os.Create(path)
+	if err != nil {
+		panic(err)
+	}
+	var mu sync.Mutex
+	ids := map[*DSS]int{}
+	seqs := map[*DSS]int{}
+	enc := json.NewEncoder(f)
+	VerifTrace = func(ev string, kv ...any) {
+		mu.Lock()
+		defer mu.Unlock()
+		args := map[string]any{}
+		var d *DSS
+		ret := "ok"
+		for i := 0; i+1 < len(kv); i += 2 {
+			switch k := kv[i].(string); k {
+			case "d":
+				d = kv[i+1].(*DSS)
+			case "err":
+				if kv[i+1] != nil {
+					ret = "err"
+					args["why"] = fmt.Sprint(kv[i+1])
+				}
+			default:
+				args[k] = kv[i+1]
+			}
+		}
+		if d == nil {
+			return
+		}
+		if _, ok := ids[d]; !ok {
+			ids[d] = len(ids) + 1
+			n, t, idx := d.VerifParams()
+			_ = enc.Encode(map[string]any{"obj": ids[d], "seq": 0, "ev": "new", "args": map[string]any{"n": n, "t": t, "p": idx},
+				"ret": "ok", "state": map[string]any{"acc": []uint32{}, "signed": false, "enough": t == 0}})
+		}
+		seqs[d]++
+		held, stored, signed := d.VerifState()
+		if held == nil {
+			held = []uint32{}
+		}
+		if ev == "ProcessPartialSig" {
+			args["kind"] = "unknown"
+		}
+		_ = enc.Encode(map[string]any{"obj": ids[d], "seq": seqs[d], "ev": ev, "args": args, "ret": ret,
+			"state": map[string]any{"acc": held, "stored": stored, "signed": signed, "enough": d.EnoughPartialSig()}})
+	}
+}
